@@ -47,19 +47,7 @@ func genC04(tier string, seed int64) (*Family, error) {
 	fam.Outside = []string{"rule sets larger than the bound", "the empty rule set (rejected by design)"}
 
 	var b strings.Builder
-	b.WriteString("package " + pkg + "\n\nimport (\n\t\"github.com/bilibili/gengine/builder\"\n\t\"github.com/bilibili/gengine/engine\"\n\t\"github.com/bilibili/gengine/zz_verif/vnd\"\n)\n\n")
-	b.WriteString(`
-// build compiles n rules with symbolic saliences, exploring the iteration
-// order of the parsed rule map.
-func build(n int, s []int64, f []bool) *builder.RuleBuilder {
-	rb := builder.NewRuleBuilder(newDC(f))
-	vnd.ExploreMapOrder(true)
-	err := rb.BuildRuleFromString(rulesText(n, s))
-	vnd.ExploreMapOrder(false)
-	must(err, "build")
-	return rb
-}
-`)
+	b.WriteString("package " + pkg + "\n\nimport (\n\t\"github.com/bilibili/gengine/engine\"\n\t\"github.com/bilibili/gengine/zz_verif/vnd\"\n)\n\n")
 	add := func(name, stratum, desc, body string, n int) {
 		fmt.Fprintf(&b, "\n// %s: %s\nfunc %s() {\n\tn := %d\n\ts := symSal(n)\n\tf := symFlags(\"f\", n)\n\tb := vnd.Bool(\"b\")\n\trb := build(n, s, f)\n\teng := engine.NewGengine()\n%s}\n", name, desc, name, n, body)
 		fam.Instances = append(fam.Instances, Instance{Func: name, Stratum: stratum, Desc: desc, Expect: []string{"executed"}})
